@@ -43,3 +43,68 @@ def need(x, msg):
     if not x:
         raise AnalysisError(msg)
     return x
+
+
+# ---------------------------------------------------------------------------
+# where handler code runs
+
+import ast as _ast
+
+from sa.model import call_name as _call_name, calls_in as _calls_in, src as _src
+
+
+def _node_calls(n):
+    if n.ast is None or n.kind in ('for', 'except', 'join'):
+        return []
+    a = n.ast.context_expr if n.kind == 'with' else n.ast
+    if isinstance(a, (_ast.FunctionDef, _ast.AsyncFunctionDef, _ast.ClassDef)):
+        return []
+    return _calls_in(a)
+
+
+def _helper_calling_param(repo, func, call, var):
+    """`self.M(..., var, ...)` where M is a method of the class in which the parameter receiving *var* is called → (M, param)."""
+    if not (isinstance(call.func, _ast.Attribute) and _src(call.func.value) == 'self' and func.cls is not None):
+        return None
+    m = func.cls.lookup(call.func.attr)
+    if m is None or m is func:
+        return None
+    params = m.params[1:]
+    for i, a in enumerate(call.args):
+        if _src(a) == var and i < len(params):
+            p = params[i]
+            if any(_call_name(c) == p for c in _calls_in(m.node)):
+                return m, p
+    return None
+
+
+def dispatcher_loop(repo, d):
+    """(for-node, loop variable, site nodes, helper or None) of the loop in which the dispatcher runs the handlers of an event.
+    A site calls the loop variable itself or hands it to a helper method of the manager that calls it."""
+    g = d.cfg()
+    for n in g.nodes:
+        if n.kind == 'for' and isinstance(n.ast.target, _ast.Name):
+            v = n.ast.target.id
+            direct = [m for m in g.nodes if m.kind in ('stmt', 'test') and any(_call_name(c) == v for c in _node_calls(m)) and ('loop', n.ast) in m.ctx]
+            if direct:
+                return n, v, direct, None
+            for m in g.nodes:
+                if m.kind in ('stmt', 'test') and ('loop', n.ast) in m.ctx:
+                    for c in _node_calls(m):
+                        h = _helper_calling_param(repo, d, c, v)
+                        if h is not None:
+                            return n, v, [m], h
+    raise AnalysisError(f'{d.ref}: no handler loop (`for h in handlers: … h(…)`) found')
+
+
+def invocation_context(repo, f):
+    """(F, sites in F): the function whose try/except encloses the handler call. The dispatcher itself, or the helper it delegates to."""
+    if f.name != '_dispatcher':
+        return f, None
+    loop, v, sites, helper = dispatcher_loop(repo, f)
+    if helper is None:
+        return f, sites
+    m, p = helper
+    g = m.cfg()
+    inner = [n for n in g.nodes if n.kind in ('stmt', 'test') and any(_call_name(c) == p for c in _node_calls(n))]
+    return m, inner
